@@ -7,7 +7,7 @@ def check(ctx):
     ctx.model("ShardSetOps", "MC_ShardSetOps_union.cfg", must_cover=("Step",))
     ctx.model("ShardSetOps", "MC_ShardSetOps_difference.cfg", must_cover=("Step",))
     ctx.model("ShardSetOps", "MC_ShardSetOps_ctl.cfg", expect_violation="Correct", coverage=False)
-    k = 6 if thorough else 1
+    k = 8 if thorough else 3
     for i in range(k):
         sh_common.record(ctx, "setops", 20, seed_off=i, need=("ShSetOp", "ShConsolidate", "ShLookup:file:hit"))
     ctx.assumptions += sh_common.ASSUME
